@@ -466,3 +466,15 @@ def fifo_findings(cx, prop, rule, files):
         else:
             res.append(Finding(prop, rule, key, True, 'first-in-first-out (%s)' % ', '.join(sorted(names)), file))
     return res
+
+
+def own_fnptr_call(n):
+    """a call through a function pointer that is kept in the value itself (`(self.task)(..)`, possibly reached through a pin
+    projection or a local copy of the field) — as opposed to a pointer obtained elsewhere (a global such as NEW_TIMER_FN)"""
+    if n['kind'] != 'call' or n['name'] != '<fnptr>':
+        return False
+    v = n.get('value')
+    if not v or v[0] != 'call' or not v[2]:
+        return False
+    root, steps = access_path(v[2][0])
+    return root[0] == 'arg' and root[1] == 1
